@@ -392,9 +392,22 @@ fn component_ties(ctx: &mut Ctx) {
         let ans = model::ask_one(&[line.clone()]);
         ctx.rep.model_compared += 1;
         let want = obs.join(" ");
-        if ans[0] != want {
+        // The LENGTH of the inflater's output buffer is not an observable of C01 (positions and contents are): an implementation
+        // whose buffer is shorter than the model's - a gentler growth policy - is not a disagreement as long as it holds the
+        // write position; a LONGER one is reported (the model's length is what the memory theorems of C06 bound).
+        let tok_ok = |m: &str, i: &str| -> bool {
+            if m == i { return true; }
+            let (mv, iv): (Vec<u64>, Vec<u64>) = (m.split(':').filter_map(|x| x.parse().ok()).collect(), i.split(':').filter_map(|x| x.parse().ok()).collect());
+            mv.len() == 3 && iv.len() == 3 && mv[1] == iv[1] && mv[2] == iv[2] && iv[0] <= mv[0] && iv[0] >= iv[1]
+        };
+        let a0: Vec<&str> = ans[0].split(' ').collect();
+        let relaxed_equal = a0.len() == obs.len() && a0.iter().zip(&obs).all(|(m, i)| tok_ok(m, i));
+        if ans[0] != want && relaxed_equal {
+            ctx.rep.count("ZlibStream vs model", "equal positions, output buffer shorter than the model's");
+        }
+        if ans[0] != want && !relaxed_equal {
             let a: Vec<&str> = ans[0].split(' ').collect();
-            let at = a.iter().zip(&obs).position(|(x, y)| x != y).unwrap_or(0);
+            let at = a.iter().zip(&obs).position(|(x, y)| !tok_ok(x, y)).unwrap_or(0);
             ctx.rep.violation("model", "zlibstream/window", &format!("ZlibStream (out_buffer.len, out_pos, read_pos) after call {}: implementation {}, model {}", at, obs.get(at).cloned().unwrap_or_default(), a.get(at).unwrap_or(&"?")),
                 J::obj().set("kind", J::s("zw")).set("line", J::s(&crate::util::shorten(&line, 20000, 0))));
         }
@@ -468,7 +481,8 @@ fn component_ties(ctx: &mut Ctx) {
         } else if failed.as_deref().map(|f| f.starts_with("PANIC")).unwrap_or(false) {
             ctx.rep.violation("oracle", "zlibstream/finish-panic", &format!("ZlibStream panicked: {}", failed.unwrap_or_default()), case);
         } else if must_fail != failed.is_some() {
-            let surplus = extra > 0 && hint == Some(n);
+            // more data in the stream than the announced size (`hint` = max_total_output): not a well-formed image
+            let surplus = hint.map(|h| h < n + extra).unwrap_or(false);
             let key = if must_fail { "zlibstream/adler-not-checked".to_string() }
                 else if check_adler && failed.as_deref().map(|f| f.contains("WrongChecksum")).unwrap_or(false) { format!("zlibstream/intact-checksum-refused{}", if surplus { "/more-data-than-announced" } else { "" }) }
                 else { "zlibstream/finish-failed".to_string() };
